@@ -13,9 +13,10 @@ pub fn deal_cid(rt: &Rt, proposal: &DealProposal) -> (r: Result<Cid, ActorError>
 // ---- fvm_ipld_bitfield::BitField::iter: yields every set bit exactly once, in ascending order ---------------------------
 // Modelled as the materialised listing (a Vec) so that R19 can index it; `bf_seq` names the listing in contracts.
 pub uninterp spec fn bf_seq(s: vstd::set::Set<u64>) -> Seq<u64>;
+pub open spec fn ascending(ids: Seq<u64>) -> bool { forall|i: int, j: int| 0 <= i < j < ids.len() ==> ids[i] < ids[j] }
 pub open spec fn bf_seq_ok(s: vstd::set::Set<u64>) -> bool {
     &&& forall|x: u64| bf_seq(s).contains(x) <==> s.contains(x)
-    &&& forall|i: int, j: int| 0 <= i < j < bf_seq(s).len() ==> bf_seq(s)[i] < bf_seq(s)[j]
+    &&& ascending(bf_seq(s))
     &&& bf_seq(s).len() == s.len()          // as many items as `BitField::len()` counts
 }
 impl BitField {
@@ -61,8 +62,8 @@ pub uninterp spec fn sector_deals_of(root: Cid, provider: ActorID, sector: Secto
 
 /// std BTreeMap<SectorNumber, Vec<DealID>> and BTreeMap<ActorID, BTreeMap<SectorNumber, Vec<DealID>>> as used for
 /// `provider_deals_to_remove`, viewed as (nested) finite maps. `vx_at(k)` stands for `entry(k).or_default()`: a mutable
-/// reference to the value stored under `k`, a default (empty) value being inserted first when there is none — the
-/// helper bodies ARE that expression (vx substitutes `.entry` => `.vx_at` and drops `.or_default()`).
+/// reference to the value stored under `k`, a default (empty) value being inserted first when there is none
+/// (vx substitutes `.entry` => `.vx_at` and drops `.or_default()`; the bodies below are not compiled).
 #[verifier::external_body]
 pub struct SectorQueue { inner: BTreeMap<SectorNumber, Vec<DealID>> }
 impl View for SectorQueue { type V = Map<SectorNumber, Seq<DealID>>; uninterp spec fn view(&self) -> Map<SectorNumber, Seq<DealID>>; }
@@ -72,7 +73,7 @@ impl SectorQueue {
         ensures
             r@ == (if old(self)@.dom().contains(s) { old(self)@[s] } else { Seq::<DealID>::empty() }),
             final(self)@ == old(self)@.insert(s, final(r)@),
-    { self.inner.entry(s).or_default() }
+    { unimplemented!() }
 }
 #[verifier::external_body]
 pub struct DealsToRemove { inner: BTreeMap<ActorID, SectorQueue> }
@@ -107,9 +108,10 @@ impl State {
 }
 
 // ---- state.rs pop_sector_deal_ids: reads and deletes the deal lists of the given sectors of one provider ------------------
-// Returns the concatenation of the deleted lists (in the order the sectors are given); assigns only `provider_sectors`,
-// and only after everything else succeeded (Err leaves the state as it was). The iterator argument is the materialised
-// listing of prelude BitField::iter.
+// Returns the concatenation of the deleted lists (in the order the sectors are given) — named `popped_deal_ids`, a function
+// of the index root, the provider and the sector listing, otherwise opaque; assigns only `provider_sectors`, and only after
+// everything else succeeded (Err leaves the state as it was). The iterator argument is the materialised listing of the
+// BitField::iter stub above.
 pub uninterp spec fn popped_deal_ids(root: Cid, provider: ActorID, sectors: Seq<u64>) -> Seq<DealID>;
 impl State {
     #[verifier::external_body]
@@ -117,8 +119,6 @@ impl State {
         ensures
             r.is_ok() ==> *final(self) == (State { provider_sectors: final(self).provider_sectors, ..*old(self) }),
             r.is_ok() ==> r->Ok_0@ == popped_deal_ids(old(self).provider_sectors, provider, sector_numbers@),
-            // every listed deal of those sectors is returned, and nothing else
-            r.is_ok() ==> forall|d: DealID| #[trigger] r->Ok_0@.contains(d) <==> exists|s: SectorNumber| sector_numbers@.contains(s) && #[trigger] sector_deals_of(old(self).provider_sectors, provider, s).contains(d),
             // exactly those lists are gone from the index
             r.is_ok() ==> forall|p: ActorID, s: SectorNumber, d: DealID| #[trigger] sector_deals_of(final(self).provider_sectors, p, s).contains(d)
                 <==> sector_deals_of(old(self).provider_sectors, p, s).contains(d) && !(p == provider && sector_numbers@.contains(s)),
@@ -142,5 +142,5 @@ impl UpdatesScheduled {
         ensures
             r@ == sched_list(old(self)@, e),
             final(self)@ == old(self)@.insert(e, final(r)@),
-    { self.inner.entry(e).or_default() }
+    { unimplemented!() }
 }
